@@ -621,7 +621,7 @@ def r15_3(ctx):
     r01_3(ctx)
 
 
-REVERSE_RE = re.compile(r"::(rfind|rsplit|rsplit_once|rsplitn|rsplit_terminator|rmatches|rmatch_indices|rposition|last|rev|trim_start_matches|strip_suffix)$")
+REVERSE_RE = re.compile(r"::(rfind|rsplit|rsplit_once|rsplitn|rsplit_terminator|rmatches|rmatch_indices|rposition|last|rev)$")
 
 
 @rule("C15", "R15.4", floor=2)
@@ -760,9 +760,22 @@ def r15_5(ctx):
         else:
             ctx.violation(["push-without-whitespace"], "a continuation line is accepted without matching the leading whitespace", site=ctx.site(al, bb))
     forms = set()
-    for bb, t in al.calls():
+    all_calls = [(al, bb, t) for bb, t in al.calls()]
+    for cl in lib.closures_of(al):
+        all_calls += [(cl, bb, t) for bb, t in cl.calls()]
+    pv = prov(ctx)
+    for (fb, bb, t) in all_calls:
         nm = C.callee_name(t)
-        if nm == SW:
+        if fb is not al:
+            # inside a closure: resolve captured values through the upvars
+            if nm == "std::str::<impl str>::strip_prefix":
+                leaves = pv.leaves(fb, t["args"][1], expand_fields=False)
+                if any(l.kind == "call" and l.callee() == "std::str::<impl str>::repeat" for l in leaves):
+                    forms.add("spaces-of-prefix-length")
+                elif any(l.kind == "field" and has_field([C.Leaf("field", None, l.data)], "prefix") for l in leaves):
+                    forms.add("same-prefix")
+            continue
+        if nm in (SW, "std::str::<impl str>::strip_prefix"):
             lv = C.trace(al, t["args"][1], through_fields=True)
             if has_field(lv, "prefix") and not has_call(lv, "std::str::<impl str>::repeat"):
                 forms.add("same-prefix")
@@ -784,15 +797,52 @@ def r15_5(ctx):
         ctx.ok("the three continuation forms are tested: %s" % sorted(forms), site=ctx.site(al, 0))
     else:
         ctx.violation(["forms", ",".join(sorted(want - forms))], "continuation form(s) %s no longer recognised by add_line" % sorted(want - forms), site=ctx.site(al, 0))
-    # the appended argument is right-trimmed (or the empty string for the bare-prefix form)
+    # the appended argument is the line with exactly the prefix-long head removed, right-trimmed (or "" for the bare-prefix form):
+    # push <- [to_string] <- trim_end_matches(is_whitespace) <- line[len(prefix)..] | strip_prefix(line, prefix|spaces) ; nothing else
+    TRIMS = ("std::str::<impl str>::trim_end_matches", "std::str::<impl str>::trim_end")
     for bb, t in pushes:
-        lv = C.trace(al, t["args"][1])
-        ok = any((l.kind == "call" and C.callee_name(l.data) in ("std::str::<impl str>::trim_end_matches", "std::str::<impl str>::trim_end")) or
-                 (l.kind == "const" and C.op_const(l.data) == '""') for l in lv)
-        if ok:
-            ctx.ok("appended argument is right-trimmed / empty", site=ctx.site(al, bb))
+        verdict = []
+        work = [(al, l) for l in C.trace(al, t["args"][1])]
+        seen_w = 0
+        while work and seen_w < 40:
+            seen_w += 1
+            fb, l = work.pop()
+            if l.kind == "const" and C.op_const(l.data) == '""':
+                verdict.append("ok")
+                continue
+            nm = l.callee() if l.kind == "call" else None
+            if nm in TRIMS:
+                work += [(fb, m) for m in C.trace(fb, l.data["args"][0])]
+                verdict.append("trimmed")
+                continue
+            if nm in ("std::option::Option::<T>::or_else", "std::option::Option::<T>::or"):
+                work += [(fb, m) for m in C.trace(fb, l.data["args"][0])]
+                clb = lib.bodies.get(l.data["arg_tys"][1].get("closure", "")) if len(l.data["arg_tys"]) > 1 else None
+                if clb is not None:
+                    work += [(clb, m) for m in C.trace(clb, {"l": 0, "p": []})]
+                else:
+                    work += [(fb, m) for m in C.trace(fb, l.data["args"][1])]
+                continue
+            if nm == "std::str::traits::<impl std::ops::Index<I> for str>::index":
+                from rules_panic import range_parts, len_of
+                kind, parts = range_parts(fb, l.data["args"][1])
+                lo = len_of(fb, parts.get("start")) if kind == "RangeFrom" else None
+                pfx = [x for x in (lo or []) if x[0] == "field" and any(n == "prefix" for (_o, _v, n) in x[1])]
+                verdict.append("ok" if pfx else "slice is not line[prefix.len()..]")
+            elif nm == "std::str::<impl str>::strip_prefix":
+                verdict.append("ok")          # removes the pattern exactly once
+            else:
+                verdict.append("argument text passes through %s (content would be altered)" % (nm or l.kind))
+        if "trimmed" not in verdict and any(v == "ok" for v in verdict) and not all(
+                l.kind == "const" for l in C.trace(al, t["args"][1])):
+            verdict.append("not right-trimmed")
+        verdict = [v for v in verdict if v != "trimmed"]
+        bad = [v for v in verdict if v != "ok"]
+        if verdict and not bad:
+            ctx.ok("appended argument = line minus the prefix-long head, right-trimmed (or empty)", site=ctx.site(al, bb))
         else:
-            ctx.violation(["no-right-trim"], "a continuation argument is appended without right-trimming", site=ctx.site(al, bb))
+            ctx.violation(["argument-shape", ";".join(sorted(set(bad)))[:100]], "a continuation argument is not `line[prefix.len()..]` right-trimmed: %s" % (
+                sorted(set(bad)) or "no origin"), site=ctx.site(al, bb))
 
 
 @rule("C11", "R11.6", floor=2)
